@@ -334,3 +334,60 @@ func (c *Ctx) mapMutated(v *types.Var) bool {
 	}
 	return mut
 }
+
+// callProtocol resolves the two functions of the call protocol structurally:
+// the "ready" function is the package-level function that invokes the field
+// funcT.Value (argument check before, result trim after); the "packing" function
+// is the one that calls it and looks at the Variadic flag.
+func (c *Ctx) callProtocol() (pack, ready *ast.FuncDecl) {
+	for _, name := range c.FuncNames() {
+		fd := c.funcs[name]
+		if fd.Body == nil || fd.Recv != nil {
+			continue
+		}
+		direct := false
+		ast.Inspect(fd.Body, func(n ast.Node) bool {
+			if _, isLit := n.(*ast.FuncLit); isLit {
+				return false // a closure invoking Value (newMethod) is not the protocol function
+			}
+			if call, ok := n.(*ast.CallExpr); ok {
+				if sel, ok := unparen(call.Fun).(*ast.SelectorExpr); ok && sel.Sel.Name == "Value" && isNamed(c.TypeOf(sel.X), "funcT") {
+					if s := c.Info.Selections[sel]; s != nil && s.Kind() == types.FieldVal {
+						direct = true
+					}
+				}
+			}
+			return true
+		})
+		if direct {
+			ready = fd
+		}
+	}
+	if ready == nil {
+		return nil, nil
+	}
+	for _, name := range c.FuncNames() {
+		fd := c.funcs[name]
+		if fd.Body == nil || fd == ready || fd.Recv != nil {
+			continue
+		}
+		calls, variadic := false, false
+		ast.Inspect(fd.Body, func(n ast.Node) bool {
+			switch x := n.(type) {
+			case *ast.CallExpr:
+				if c.DeclOf(c.Callee(x)) == ready {
+					calls = true
+				}
+			case *ast.SelectorExpr:
+				if x.Sel.Name == "Variadic" && isNamed(c.TypeOf(x.X), "funcT") {
+					variadic = true
+				}
+			}
+			return true
+		})
+		if calls && variadic {
+			pack = fd
+		}
+	}
+	return pack, ready
+}
